@@ -11,6 +11,17 @@ case = {"form": "str" | "bytes" | "lines" | "lines-nl" | "bytes-lines" | "file" 
 The text is the plain concatenation of the rendered lines, each followed by "\\n"; everything the
 library must expose is read off the structure (there is no model of the parser).
 
+Edges of the grammar.  A maintainer name or an address may be the empty string (' --  <addr>  date',
+' -- name <>  date'), and the text of a change line may be, or start with, '--' (at an indentation of two
+or more it is change text, not a trailer): both are inside the grammar and everything is demanded of them.
+A block WITHOUT ANY CHANGE TEXT - the trailer directly after the header, or only blank / whitespace-only
+lines between them - is arguable ("blocks consisting of a header, change lines, and a trailer"), so for a
+text that has such a block only the sound direction is asserted: nothing is demanded of the parser (it may
+raise ChangelogParseError or warn, at any stage; the case is then counted under
+'edge:no-change-text:not-accepted-nothing-demanded' and is trivial), but IF a strict parse takes the text
+without any warning THEN str()/bytes() must reproduce it byte for byte and the blocks must expose what was
+written (an empty changes() list included), exactly as for any other text.
+
 ``encoding`` is the documented way to say how bytes input is to be read; it can be given to the
 constructor, to parse_changelog(), or to both with different values (an explicit argument of the
 call is what that call reads its input with).  "via" says where the codec of the input goes:
@@ -66,18 +77,28 @@ import warnings
 
 from hypothesis import strategies as st
 
-from ..core import Violation, Hyp, short
+from ..core import Violation, Hyp, Enum, short
 from ..gen import c04_changelog as G
 
 from debian.changelog import Changelog, ChangeBlock, ChangelogParseError
 
 ID = "C04"
+EDGE_FORMS = ["str", "bytes-lines", "file"]
+_EDGES_DESC = ("%d shapes (no line / 1 / 2 blank / whitespace-only lines between header and trailer; empty "
+               "maintainer name and/or address, also together with the former; change text that is, or starts "
+               "with, '--' at an indentation of >= 2, incl. complete trailers as change text) x the only / first / "
+               "middle / last / every block of 1..3 otherwise plain blocks x blocks separated by one blank line "
+               "or none x %d input forms (str, list of bytes lines, text file)"
+               % (len(G.EDGE_SHAPES), len(EDGE_FORMS)))
 LEVEL = "exploration"
-RULE = ("cases are changelog structures drawn from the deb-changelog(5) grammar (1..4 blocks; header "
+RULE = ("(a) source 'grammar': "
+        "cases are changelog structures drawn from the deb-changelog(5) grammar (1..4 blocks; header "
         "'pkg (version) dist...; urgency=U[ comment][, key=value]*'; change lines = blank lines or "
         ">=2 blanks + printable text incl. look-alikes of headers/trailers/mode lines; trailer "
-        "' -- name <email>  date[blanks]'; 0..2 blank or whitespace-only lines before, inside and "
-        "after blocks) x 7 input forms (str, bytes, list of lines with/without newline, list "
+        "' -- name <email>  date[blanks]', name and/or email possibly empty; 0..2 blank or "
+        "whitespace-only lines before, inside and after blocks; in 1 case of 8 one block, at a uniformly drawn "
+        "position, has no change text at all: nothing, one or two blank lines, or whitespace-only lines "
+        "between header and trailer) x 7 input forms (str, bytes, list of lines with/without newline, list "
         "of bytes lines, text file object, binary file object) x encoding of bytes input (UTF-8, "
         "latin-1, iso-8859-15, cp1252, koi8-r, euc-jp, gb18030; UTF-16 for whole-text forms only; "
         "characters a codec cannot spell are replaced by characters it can) x where the "
@@ -97,6 +118,10 @@ RULE = ("cases are changelog structures drawn from the deb-changelog(5) grammar 
         "itself / a parse of a fixed text without / with extra header fields / Changelog()+new_block(..) "
         "/ +new_block() / bare ChangeBlock()s, each edited in the same way; judged: a result obtained "
         "before those edits and never touched, and a new parse after them); "
+        "(b) source 'edges', enumerated completely: " + _EDGES_DESC + ", fresh objects and the fixed used "
+        "object only. "
+        "Texts with a block without change text are judged conditionally (only if the strict parse takes them "
+        "without warning; then in full), all others unconditionally. "
         "expected text = concatenation of the rendered lines. "
         "Non-trivial = >=2 blocks, or extra keys, or an urgency comment, or a change line "
         "containing '#', ':' or non-ASCII; distinct = distinct canonical JSON of the case")
@@ -107,6 +132,11 @@ ASSUMPTIONS = [
     "blanks after the date are accepted either as part of the exposed date or dropped from it; "
     "the byte-for-byte clause pins them down anyway",
     "a recogniser written with independent regular expressions rejects replay cases outside the domain",
+    "a block without change text (trailer directly after the header, or blank lines only in between) is not "
+    "claimed to be well-formed: acceptance is never demanded for a text that has one, at no stage (fresh, used "
+    "object, object with a past, after edits elsewhere); a stage that refuses or warns is skipped and labelled "
+    "'edge:...'; empty maintainer names / addresses and change text starting with '--' are inside the grammar "
+    "(arbitrary name, arbitrary change text) and acceptance is demanded",
     "bytes input = Python's own codec applied to the expected text (checked to decode back to it); lines of "
     "bytes are the encoded lines (codecs are stateless and keep b'\\n' for the newline only); bytes() is "
     "compared with the encoded text only when the object was constructed with (or defaults to) the input's codec",
@@ -494,6 +524,12 @@ def _check_result(cl, case, text, encoded, codec, via, pre, ctx="", with_bytes=T
         raise Violation(pre + "attr:date", "Changelog.date is %r" % (cl.date,))
 
 
+def _edge_refused(case, how):
+    """Labels of a text with a block without change text that the strict parser did not take silently."""
+    return sorted(G.struct_labels(case) | {"form:" + case["form"], "edge:no-change-text:" + how,
+                                           "edge:no-change-text:not-accepted-nothing-demanded"})
+
+
 PRIOR_TEXT = ("\nprior (0.1-1) unstable; urgency=low\n\n  * prior entry\n\n"
               " -- A B <a@b.c>  Mon, 01 Jan 2001 00:00:00 +0000\n\n"
               "prior (0.1-0) unstable; urgency=low\n\n  * older\n\n"
@@ -501,8 +537,13 @@ PRIOR_TEXT = ("\nprior (0.1-1) unstable; urgency=low\n\n  * prior entry\n\n"
 
 
 def check(case):
-    if not (isinstance(case, dict) and case.get("form") in FORMS and G.wellformed(case)):
+    if not (isinstance(case, dict) and case.get("form") in FORMS and G.wellformed(case, boundary_ok=True)):
         return (False, ("invalid-case-skipped",))
+    # A block without any change text (nothing, or blank lines only, between header and trailer) is on
+    # the edge of the grammar: nothing is demanded of the parser for a text that has one (it may refuse
+    # it or warn, at any stage) - but a text it accepts without warning is held to everything else.
+    edge = bool(G.boundary_blocks(case))
+    edge_labels = []
     enc = encoding_of(case)
     if enc is None:
         return (False, ("invalid-case-skipped",))
@@ -527,9 +568,13 @@ def check(case):
         try:
             cl = parse_fresh(inp, codec, via, other)
         except ChangelogParseError as e:
+            if edge:
+                return (False, _edge_refused(case, "rejected:" + _error_class(str(e))))
             raise Violation("strict-rejects:" + _error_class(str(e)), "%s for %s" % (e, short(text)))
     if caught:
         m = str(caught[0].message)
+        if edge:
+            return (False, _edge_refused(case, "warned:" + _error_class(m)))
         raise Violation("warning:" + _error_class(m), "%s for %s" % (m, short(text)))
 
     _check_result(cl, case, text, encoded, codec, via, "")
@@ -537,17 +582,22 @@ def check(case):
     # The same text parsed into an object that already holds something (an earlier parse of a
     # different changelog, then scribbled on) must give the same result: what a Changelog holds
     # after parse_changelog() is a function of the text just parsed.
+    used = None
     with warnings.catch_warnings(record=True) as caught:
         warnings.simplefilter("always")
         try:
             used = parse_into_used(make_input(case["form"], lines, codec), codec, via, other)
         except ChangelogParseError as e:
-            raise Violation("reparse-into-used-object:strict-rejects",
-                            "%s for %s" % (e, short(text)))
-    if caught:
+            if not edge:
+                raise Violation("reparse-into-used-object:strict-rejects",
+                                "%s for %s" % (e, short(text)))
+    if caught and not edge:
         raise Violation("reparse-into-used-object:warning", "%s for %s" % (caught[0].message, short(text)))
-    _check_result(used, case, text, encoded, codec, via, "reparse-into-used-object:",
-                  "a Changelog that held another text, after parse_changelog(%s input): " % case["form"])
+    if used is None or caught:
+        edge_labels.append("edge:not-accepted-by-a-used-object")
+    else:
+        _check_result(used, case, text, encoded, codec, via, "reparse-into-used-object:",
+                      "a Changelog that held another text, after parse_changelog(%s input): " % case["form"])
 
     # ... and so must an object with any other past (aborted, lenient, differently encoded parses)
     hist_labels = []
@@ -555,21 +605,27 @@ def check(case):
         used, outcomes = object_with_history(history, codec, via, other)
         ctx = "a Changelog with the past [%s], after parse_changelog(%s input): " % (
             ", ".join(outcomes), case["form"])
+        refused = False
         with warnings.catch_warnings(record=True) as caught:
             warnings.simplefilter("always")
             try:
                 final_parse(used, make_input(case["form"], lines, codec), codec, via)
             except ChangelogParseError as e:
-                raise Violation("reparse-after-history:strict-rejects:" + _error_class(str(e)),
-                                "%s%s for %s" % (ctx, e, short(text)))
+                if not edge:
+                    raise Violation("reparse-after-history:strict-rejects:" + _error_class(str(e)),
+                                    "%s%s for %s" % (ctx, e, short(text)))
+                refused = True
             except UnicodeError as e:
                 raise Violation("reparse-after-history:decode-error", "%s%s for %s in %s"
                                 % (ctx, e, short(text), codec))
-        if caught:
+        if caught and not edge:
             raise Violation("reparse-after-history:warning", "%s%s for %s" % (ctx, caught[0].message, short(text)))
-        # (which codec bytes() uses after a call that named another one is not pinned down here)
-        _check_result(used, case, text, encoded, codec, via, "reparse-after-history:", ctx,
-                      with_bytes=all(s_.get("enc") is None for s_ in history))
+        if refused or caught:
+            edge_labels.append("edge:not-accepted-by-an-object-with-a-past")
+        else:
+            # (which codec bytes() uses after a call that named another one is not pinned down here)
+            _check_result(used, case, text, encoded, codec, via, "reparse-after-history:", ctx,
+                          with_bytes=all(s_.get("enc") is None for s_ in history))
         hist_labels = history_labels(case, history, outcomes, codec, via, other, text)
 
     # ... and so must a new object, whatever was done before - in the same process - to what other
@@ -582,7 +638,10 @@ def check(case):
             try:
                 witness = parse_fresh(make_input(case["form"], lines, codec), codec, via, other)
             except ChangelogParseError as e:
-                raise Violation("second-parse:strict-rejects:" + _error_class(str(e)), "%s for %s" % (e, short(text)))
+                if not edge:
+                    raise Violation("second-parse:strict-rejects:" + _error_class(str(e)),
+                                    "%s for %s" % (e, short(text)))
+                witness = None
         raised = 0
         for kind in ambient:
             box = []
@@ -594,20 +653,28 @@ def check(case):
         if raised:
             amb_labels.append("ambient:some-edit-raised")
         ctx = "after in-place edits of what other objects [%s] handed out, " % ", ".join(ambient)
-        _check_result(witness, case, text, encoded, codec, via, "untouched-result-after-edits-elsewhere:",
-                      ctx + "a Changelog parsed before them and never touched: ")
+        if witness is None:
+            edge_labels.append("edge:second-parse-not-accepted")
+        else:
+            _check_result(witness, case, text, encoded, codec, via, "untouched-result-after-edits-elsewhere:",
+                          ctx + "a Changelog parsed before them and never touched: ")
+        again = None
         with warnings.catch_warnings(record=True) as caught:
             warnings.simplefilter("always")
             try:
                 again = parse_fresh(make_input(case["form"], lines, codec), codec, via, other)
             except ChangelogParseError as e:
-                raise Violation("fresh-parse-after-edits-elsewhere:strict-rejects:" + _error_class(str(e)),
-                                "%s%s for %s" % (ctx, e, short(text)))
-        if caught:
+                if not edge:
+                    raise Violation("fresh-parse-after-edits-elsewhere:strict-rejects:" + _error_class(str(e)),
+                                    "%s%s for %s" % (ctx, e, short(text)))
+        if caught and not edge:
             raise Violation("fresh-parse-after-edits-elsewhere:warning",
                             "%s%s for %s" % (ctx, caught[0].message, short(text)))
-        _check_result(again, case, text, encoded, codec, via, "fresh-parse-after-edits-elsewhere:",
-                      ctx + "a new Changelog: ")
+        if again is None or caught:
+            edge_labels.append("edge:not-accepted-after-edits-elsewhere")
+        else:
+            _check_result(again, case, text, encoded, codec, via, "fresh-parse-after-edits-elsewhere:",
+                          ctx + "a new Changelog: ")
         if any(not b["pairs"] for b in case["blocks"]):
             amb_labels.append("ambient:text-has-a-block-without-extra-keys")
 
@@ -619,6 +686,9 @@ def check(case):
     labels.update(hist_labels)
     labels.add("ambient-objects:%d" % len(ambient or ()))
     labels.update(amb_labels)
+    if edge:
+        labels.add("edge:no-change-text:accepted-and-judged")
+        labels.update(edge_labels)
     if case["form"] in BYTES_FORMS and not text.isascii():
         labels.add("non-ascii-bytes-input")
         if codec != "utf-8":
@@ -718,9 +788,17 @@ AMBIENTS = ([[k] for k in AMBIENT_KINDS]
 _ambients = st.sampled_from([None] * (len(AMBIENTS) // 2) + AMBIENTS)
 
 
+# One case in eight gets a block (any position, drawn uniformly) without change text: the trailer
+# directly after the header, or only blank / whitespace-only lines between them.
+_no_change_text = st.sampled_from([None] * (7 * len(G.NO_CHANGE_TEXT)) + G.NO_CHANGE_TEXT)
+
+
 @st.composite
 def gen_case(draw, max_blocks=4):
     s = draw(G.structs(max_blocks=max_blocks))
+    emptied = draw(_no_change_text)
+    if emptied is not None:
+        s["blocks"][draw(G._index(len(s["blocks"])))]["changes"] = list(emptied)
     form = draw(_forms)
     via = draw(_vias)
     history = draw(_histories)
@@ -739,7 +817,19 @@ def gen_case(draw, max_blocks=4):
     return s
 
 
+def edge_cases():
+    """The edge shapes of gen/c04_changelog.py at every block position, in three input forms."""
+    for struct in G.edge_structs():
+        for form in EDGE_FORMS:
+            case = dict(struct)
+            case["form"] = form
+            yield case
+
+
+_EDGES = Enum("edges", edge_cases, _EDGES_DESC)
+
+
 def sources(tier):
     if tier == "quick":
-        return [Hyp("grammar", gen_case(), 400, shards=8)]
-    return [Hyp("grammar", gen_case(), 8000, shards=16)]
+        return [_EDGES, Hyp("grammar", gen_case(), 400, shards=8)]
+    return [_EDGES, Hyp("grammar", gen_case(), 8000, shards=16)]
